@@ -10,8 +10,6 @@ import (
 	"github.com/gagliardetto/solana-go"
 	"github.com/rpcpool/yellowstone-faithful/compactindexsized"
 	"github.com/sourcegraph/jsonrpc2"
-	"google.golang.org/grpc/codes"
-	"google.golang.org/grpc/status"
 	"k8s.io/klog/v2"
 )
 
@@ -178,7 +176,10 @@ func (multi *MultiEpoch) handleGetTransaction(ctx context.Context, conn *request
 		if blocktimeIndex != nil {
 			blocktime, err := blocktimeIndex.Get(uint64(transactionNode.Slot))
 			if err != nil {
-				return nil, status.Errorf(codes.Internal, "Failed to get block: %v", err)
+				return &jsonrpc2.Error{
+					Code:    jsonrpc2.CodeInternalError,
+					Message: "Internal error",
+				}, fmt.Errorf("failed to get blocktime: %w", err)
 			}
 			response.Blocktime = &blocktime
 		} else {
